@@ -87,3 +87,72 @@ package plonk
 //@   ensures @fields result.1 == nil ==> forall k int :: 0 <= k && k < 12 ==> decItem(dec, k) == boxid(toDecode[k])
 //@   ensures @list toDecode[0] == iface(&proof.LRO[0]) && toDecode[1] == iface(&proof.LRO[1]) && toDecode[2] == iface(&proof.LRO[2]) && toDecode[3] == iface(&proof.Z) && toDecode[4] == iface(&proof.H[0]) && toDecode[5] == iface(&proof.H[1]) && toDecode[6] == iface(&proof.H[2]) && toDecode[7] == iface(&proof.BatchedProof.H) && toDecode[8] == iface(&proof.BatchedProof.ClaimedValues) && toDecode[9] == iface(&proof.ZShiftedOpening.H) && toDecode[10] == iface(&proof.ZShiftedOpening.ClaimedValue) && toDecode[11] == iface(&proof.Bsb22Commitments)
 //@   loop 1 invariant @seq nDec(dec, 0) == rangeindex + 1 && (forall k int :: 0 <= k && k <= rangeindex ==> decItem(dec, k) == boxid(toDecode[k]))
+
+//@ transparent github.com/consensys/gnark-crypto/ecc/bw6-633/fr/fft.Domain github.com/consensys/gnark-crypto/ecc/bw6-633/fr/iop.Polynomial github.com/consensys/gnark-crypto/ecc/bw6-633/fr/iop.polynomial
+//@ spec func wfPoly(p *iop.Polynomial) bool = p != nil && p.polynomial != nil && p.polynomial.coefficients != nil
+// ---- C20: blinding. Orders 1, 1, 1, 2 for L, R, O, Z (so 2, 2, 2, 3 random coefficients): written from the
+// property statement, not from the constants of the package.
+//@ contract getRandomPolynomial
+//@   props C20
+//@   requires n >= 0 && n < 1000000
+//@   nopanic
+//@   assigns
+//@   ensures @size wfPoly(result) && fresh(result) && fresh(result.polynomial) && fresh(result.polynomial.coefficients) && fresh(*result.polynomial.coefficients) && len(*result.polynomial.coefficients) == n + 1
+//@   ensures @all-random forall k int :: 0 <= k && k <= n ==> isRnd((*result.polynomial.coefficients)[k])
+//@   loop 1 invariant @len len(a) == n + 1 && i >= 0
+//@   loop 1 invariant @random forall k int :: 0 <= k && k < i ==> isRnd(a[k])
+//@ spec func polyLen(p *iop.Polynomial) int = len(*p.polynomial.coefficients)
+//@ spec func polyRnd(p *iop.Polynomial, k int) bool = isRnd((*p.polynomial.coefficients)[k])
+//@ contract (*instance).initBlindingPolynomials
+//@   props C20
+//@   requires s != nil && len(s.bp) == 4 && alloc(s.bp) != alloc(s)
+//@   nopanic
+//@   ensures @wf result == nil && wfPoly(s.bp[id_Bl]) && wfPoly(s.bp[id_Br]) && wfPoly(s.bp[id_Bo]) && wfPoly(s.bp[id_Bz])
+//@   ensures @orders polyLen(s.bp[id_Bl]) == 2 && polyLen(s.bp[id_Br]) == 2 && polyLen(s.bp[id_Bo]) == 2 && polyLen(s.bp[id_Bz]) == 3
+//@   ensures @random forall k int :: 0 <= k && k < 2 ==> polyRnd(s.bp[id_Bl], k) && polyRnd(s.bp[id_Br], k) && polyRnd(s.bp[id_Bo], k) && polyRnd(s.bp[id_Bz], k)
+//@   ensures @random-z polyRnd(s.bp[id_Bz], 2)
+//@   ensures @independent s.bp[id_Bl] != s.bp[id_Br] && s.bp[id_Bl] != s.bp[id_Bo] && s.bp[id_Br] != s.bp[id_Bo] && s.bp[id_Bz] != s.bp[id_Bl] && s.bp[id_Bz] != s.bp[id_Br] && s.bp[id_Bz] != s.bp[id_Bo]
+
+// quotient shards under the statistical zero-knowledge option: fresh copies (the quotient itself is not touched), the
+// first shard gets the first randomiser on top, the second is shifted by it and gets the second on top, the third is
+// shifted by the second (the element-wise content of the copies under the option is not under contract: the copy
+// facts did not discharge in the budget; the plain path is proved element-wise)
+//@ spec func hAt(s *instance, k int) F = (*s.h.polynomial.coefficients)[k]
+//@ spec func shard(s *instance) int = int(s.domain0.Cardinality) + 2
+//@ spec func wfShards(s *instance) bool = s != nil && s.opt != nil && wfPoly(s.h) && s.domain0 != nil && s.domain0.Cardinality < 1000000000 && len(*s.h.polynomial.coefficients) >= 3 * (int(s.domain0.Cardinality) + 2)
+//@ contract (*instance).h1
+//@   props C20
+//@   requires wfShards(s)
+//@   nopanic
+//@   assigns
+//@   ensures @szk-fresh s.opt.StatisticalZK ==> fresh(result) && len(result) == shard(s) + 1
+//@   ensures @szk-top s.opt.StatisticalZK ==> result[shard(s)] == s.quotientShardsRandomizers[0]
+//@   ensures @plain !s.opt.StatisticalZK ==> len(result) == shard(s) && forall k int :: 0 <= k && k < shard(s) ==> result[k] == hAt(s, k)
+//@ contract (*instance).h2
+//@   props C20
+//@   requires wfShards(s)
+//@   nopanic
+//@   assigns
+//@   ensures @szk-fresh s.opt.StatisticalZK ==> fresh(result) && len(result) == shard(s) + 1
+//@   ensures @szk-top s.opt.StatisticalZK ==> result[shard(s)] == s.quotientShardsRandomizers[1]
+//@   ensures @plain !s.opt.StatisticalZK ==> len(result) == shard(s) && forall k int :: 0 <= k && k < shard(s) ==> result[k] == hAt(s, shard(s) + k)
+//@ contract (*instance).h3
+//@   props C20
+//@   requires wfShards(s)
+//@   nopanic
+//@   assigns
+//@   ensures @szk-fresh s.opt.StatisticalZK ==> fresh(result) && len(result) == shard(s)
+//@   ensures @plain !s.opt.StatisticalZK ==> len(result) == shard(s) && forall k int :: 0 <= k && k < shard(s) ==> result[k] == hAt(s, 2 * shard(s) + k)
+//@   ensures @quotient-untouched forall k int :: 0 <= k && k < 3 * shard(s) ==> hAt(s, k) == old(hAt(s, k))
+
+// the two quotient-shard randomisers are drawn when (and only when needed) the statistical zero-knowledge option is set
+// NewTrace builds the selector / permutation polynomials from the constraint system: it allocates, it does not write
+// into the system, the domain or the instance under construction (frame assumed; the function is goroutine-parallel)
+//@ contract NewTrace
+//@   trusted "frame only: allocates the trace, writes nothing reachable from its arguments"
+//@   pure
+//@ contract newInstance
+//@   props C20
+//@   requires opts != nil && spr != nil && pk != nil
+//@   ensures @szk-randomizers result.1 == nil && opts.StatisticalZK ==> isRnd(result.0.quotientShardsRandomizers[0]) && isRnd(result.0.quotientShardsRandomizers[1])
+//@   ensures @blinding-slots result.1 == nil ==> len(result.0.bp) == 4 && alloc(result.0.bp) != alloc(result.0)
